@@ -10,7 +10,8 @@
    Each component theorem COMPOSES the reader-side meaning (C06 CfaSpec, C07 OpDec, C08 ListSpec, C03 Attr) with
    the writer-side read-back theorems (C14 CfaEncSpec / CfiWr, C15 OpEncSpec / OpWr, C16 ListWrSpec, C11 UnitWr):
    Err is always allowed, a silently different meaning never.
-   Not theorems here: ConvertLineProgram (two known findings, oracle streams c12.line / c12.vliw), whole-unit
+   ConvertLineProgram: section (5) — per-call / per-instruction theorems over Model/ConvertLine.v; whole programs stay
+   with the oracle streams c12.line / c12.vliw (two known findings). Not theorems here: whole-unit
    conversion (entry ids, string tables; oracle stream c12.corpus), normal form of expressions (oracle). *)
 From Coq Require Import List NArith ZArith Bool Sorted.
 From Coq.Strings Require Import Byte.
@@ -548,6 +549,110 @@ Example attr_convert_ex :
   conv_attr 5 [] ex_acvt ex_uaddr Attr.DW_FORM_ref4 73 (FormSpec.VUnitRef 12) = Ok None.
 Proof. vm_compute. repeat split. Qed.
 
+(* ============================================================== (5) ConvertLineProgram (line programs)
+   Model/ConvertLine.v mirrors write::line::convert (new, convert_file, read_row, read_sequence, convert) over the
+   line READER model of C04 (Model/LineRd.v) and the line WRITER model of C13 (Model/LineWr.v); it is tied to gimli
+   by stream c12.lineconv. Names below are qualified: CL = Model/ConvertLine, CLP = Proofs/ConvertLineProofs.
+
+   FULL statement aimed at (line_convert_sound):  convert p = Ok p' and not KnownClass p ->
+       rows (read (write p')) = rows p, sequence by sequence (addresses = sequence base + address_offset).
+   PROVED here: the per-call and per-instruction halves of it —
+     line_convert_error_or_exact   the address offset and every row register are copied verbatim, the file register
+                                   is mapped through the FileId table, or the call returns the specific error
+                                   (unaligned offset -> UnsupportedLineInstruction, never a truncated offset);
+     line_convert_offset_exact     every instruction except DW_LNE_set_address acts on the converter's private row
+                                   (address = offset from the sequence base) exactly as the reader executes it on
+                                   the real row: offset' = address' - base; a reader success is a converter success;
+     line_convert_set_address_*    DW_LNE_set_address at offset 0 keeps the private row at 0 (so base := operand is
+                                   exact); after the row has advanced it TOMBSTONES the private row — the F10 class;
+     line_convert_midseq_refuted / line_convert_vliw_refuted   the two known findings, as model witnesses.
+   MISSING for the full statement: the induction over the whole instruction stream that glues these steps to
+   C04's rows_model and C13's program_roundtrip_* (a simulation between LineRows::next_row and read_row with its
+   SetAddress / ConvertRow states); whole programs are decided by the oracle streams c12.line / c12.vliw / c12.line5
+   and by the model stream c12.lineconv. *)
+Require GV.Spec.LineSpec GV.Model.LineRd GV.Model.LineWr GV.Model.ConvertLine GV.Proofs.LineRdMono
+        GV.Proofs.ConvertLineProofs.
+
+Theorem line_convert_address_offset_exact : forall c,
+  match ConvertLine.convert_address_offset c with
+  | Ok a => a = LineRd.r_addr (ConvertLine.cl_row c) /\
+            (LineWr.le_min_len (LineWr.p_lenc (ConvertLine.cl_prog c)) <= 1 \/
+             a mod LineWr.le_min_len (LineWr.p_lenc (ConvertLine.cl_prog c)) = 0)
+  | Err e => e = CUnsupportedLineInstruction /\ 1 < LineWr.le_min_len (LineWr.p_lenc (ConvertLine.cl_prog c)) /\
+             LineRd.r_addr (ConvertLine.cl_row c) mod LineWr.le_min_len (LineWr.p_lenc (ConvertLine.cl_prog c)) <> 0
+  | _ => False
+  end.
+Proof. exact ConvertLineProofs.address_offset_exact. Qed.
+
+Theorem line_convert_error_or_exact : forall h c,
+  match ConvertLine.convert_row h c with
+  | Ok w => ConvertLineProofs.row_fields_verbatim (ConvertLine.cl_row c) w /\
+            nth_error (ConvertLine.cl_files c) (N.to_nat (LineRd.r_file (ConvertLine.cl_row c))) = Some (LineWr.w_file w) /\
+            (LineSpec.h_version h <= 4 -> LineRd.r_file (ConvertLine.cl_row c) <> 0) /\
+            (LineWr.le_min_len (LineWr.p_lenc (ConvertLine.cl_prog c)) <= 1 \/
+             LineWr.w_address_offset w mod LineWr.le_min_len (LineWr.p_lenc (ConvertLine.cl_prog c)) = 0)
+  | Err e => (e = CUnsupportedLineInstruction /\ 1 < LineWr.le_min_len (LineWr.p_lenc (ConvertLine.cl_prog c)) /\
+              LineRd.r_addr (ConvertLine.cl_row c) mod LineWr.le_min_len (LineWr.p_lenc (ConvertLine.cl_prog c)) <> 0) \/
+             (e = CInvalidFileIndex /\
+              (N.of_nat (length (ConvertLine.cl_files c)) <= LineRd.r_file (ConvertLine.cl_row c) \/
+               (LineRd.r_file (ConvertLine.cl_row c) = 0 /\ LineSpec.h_version h <= 4)))
+  | _ => False
+  end.
+Proof. exact ConvertLineProofs.convert_row_exact. Qed.
+
+Theorem line_convert_offset_exact : forall dbg h r i b r' x,
+  LineRdMono.hdr_ok h -> LineRd.r_tomb r = false -> b <= LineRd.r_addr r ->
+  (forall a, i <> LineSpec.ISetAddress a) ->
+  LineRd.execute dbg h r i = Ok (r', x) -> (forall e, x <> LineRd.XErr e) ->
+  LineRd.execute dbg h (ConvertLineProofs.rebase b r) i = Ok (ConvertLineProofs.rebase b r', x) /\
+  LineRd.r_tomb r' = false /\ b <= LineRd.r_addr r'.
+Proof. exact ConvertLineProofs.execute_rebase. Qed.
+
+Theorem line_convert_set_address_first : forall dbg h q,
+  LineRdMono.hdr_ok h -> LineRd.r_addr q = 0 ->
+  LineRd.execute dbg h q (LineSpec.ISetAddress 0) =
+    Ok (LineRd.set_opi (LineRd.set_addr (LineRd.set_tomb q false) 0) 0, LineRd.XNoRow).
+Proof. exact ConvertLineProofs.set_address_zero. Qed.
+
+Theorem line_convert_set_address_midseq : forall dbg h q,
+  0 < LineRd.r_addr q ->
+  LineRd.execute dbg h q (LineSpec.ISetAddress 0) = Ok (LineRd.set_tomb q true, LineRd.XNoRow).
+Proof. exact ConvertLineProofs.set_address_midseq. Qed.
+
+(* the hypotheses are met by real rows: C04's sample header, a row at 0x1010 seen from base 0x1000 *)
+Example line_convert_offset_exact_hyps :
+  LineRdMono.hdr_ok LineRdMono.sample_header /\
+  LineRd.execute true LineRdMono.sample_header
+    (LineRd.set_addr (LineRd.row_new LineRdMono.sample_header) 4112) (LineSpec.IAdvancePc 3) =
+    Ok (LineRd.set_addr (LineRd.row_new LineRdMono.sample_header) 4115, LineRd.XNoRow) /\
+  LineRd.execute true LineRdMono.sample_header
+    (ConvertLineProofs.rebase 4096 (LineRd.set_addr (LineRd.row_new LineRdMono.sample_header) 4112)) (LineSpec.IAdvancePc 3) =
+    Ok (LineRd.set_addr (LineRd.row_new LineRdMono.sample_header) 19, LineRd.XNoRow).
+Proof. split; [exact (proj1 LineRdMono.hdr_ok_examples)|]. vm_compute. split; reflexivity. Qed.
+
+(* the two known-finding classes (Model/ConvertLine.v known_midseq = the class of harness/src/c12.rs
+   midseq_set_address; known_vliw = maximum_operations_per_instruction > 1), with model witnesses *)
+Theorem line_convert_midseq_refuted : forall dbg,
+  ConvertLine.known_midseq dbg true ConvertLineProofs.wit_midseq = true /\
+  map LineRd.r_addr (fst (LineRd.rows_model dbg true ConvertLineProofs.wit_midseq)) = [12303; 14338] /\
+  snd (LineRd.rows_model dbg true ConvertLineProofs.wit_midseq) = LineRd.SEnd /\
+  ConvertLineProofs.wit_events dbg true ConvertLineProofs.wit_midseq =
+    Some ([ConvertLine.CRSetAddress 12288;
+           ConvertLine.CRRow (LineWr.mkWrow 15 0 0 5 0 0 true false false false 0);
+           ConvertLine.CREndSequence 15], LineRd.SEnd) /\
+  ConvertLineProofs.wit_convert dbg true ConvertLineProofs.wit_midseq =
+    Some (Ok [LineWr.ISetAddress (LineWr.AConst 12288); LineWr.ISpecial 232; LineWr.IEndSequence]).
+Proof. exact ConvertLineProofs.midseq_witness. Qed.
+
+Theorem line_convert_vliw_refuted :
+  ConvertLine.known_vliw ConvertLineProofs.wit_vliw = true /\
+  ConvertLine.known_midseq true false ConvertLineProofs.wit_vliw = false /\
+  ConvertLineProofs.wit_convert true false ConvertLineProofs.wit_vliw = Some Panic /\
+  ConvertLineProofs.wit_convert false false ConvertLineProofs.wit_vliw =
+    Some (Ok [LineWr.ISetAddress (LineWr.AConst 12288); LineWr.ISpecial 32;
+              LineWr.IAdvancePc 18446744073709551615; LineWr.ICopy; LineWr.IEndSequence]).
+Proof. exact ConvertLineProofs.vliw_witness. Qed.
+
 Check cfi_offset_exact_or_error. Check cfi_factored_offset_exact_or_error. Check cfi_factors_exact_or_error.
 Check cfi_advance_exact_or_error. Check cfi_insn_convert_sound. Check cfi_insn_convert_each.
 Check cfi_convert_write_read_sound. Check cfi_normal_form_cie. Check cfi_normal_form_fde.
@@ -556,3 +661,6 @@ Check expr_converted_well_typed. Check expr_fuel_suffices. Check expr_normal_for
 Check range_convert_sound. Check loc_convert_sound. Check list_normal_form_v5. Check list_normal_form_v4.
 Check attr_convert_sound. Check attr_file_index_rule. Check attr_file_index_written. Check attr_implicit_const.
 Check attr_flag_present. Check attr_dwo_id_normal_form.
+Check line_convert_address_offset_exact. Check line_convert_error_or_exact. Check line_convert_offset_exact.
+Check line_convert_set_address_first. Check line_convert_set_address_midseq.
+Check line_convert_midseq_refuted. Check line_convert_vliw_refuted.
